@@ -87,7 +87,6 @@ PROPS = {
         "clauses_not_decided": [
             "'appears in no closest-node answer until it is added again' is decided at the routing table (unit bucket: the critical sections of evict_node / handle_node_failure remove the peer and nothing else; find_closest_nodes answers only listed peers); the merge with connected peers in DhtNetworkManager::find_closest_nodes_local is async and not decided",
             "ranking clauses of the selector (closer first at equal trust, more trusted first at equal distance): not proved; exercised only by the native bounded search, which is not counted as evidence",
-            "selection when trust selection is disabled (engine-level async select_query_peers)",
         ],
         "explanation": "Verus: liveness policy for all histories; EvictionManager policy predicate, events (whole-map frames), candidate list exactness for maps of any size; selector structural clauses (at most count, from distinct candidate positions, never below the trust floor, storage floor 0.2). Kani: liveness step, f64::clamp facts.",
         "jobs": {"quick": 6, "thorough": 6},
